@@ -3,6 +3,10 @@ from pyvc.runner import func
 
 UPDATE_ALL = [func("bt.core.StrategyBase.update", variant=v) for v in ("flat", "paper", "nested", "nested-paper")]
 
+from contracts.core_getters import getter_tasks
+
+GETTER_TASKS = getter_tasks()
+
 ID = "C01"
 META = {
     "assumptions": ['A-REAL', 'A-COMM', 'A-T', 'A-IND', 'A-DATA-NONE', 'A-CYTHON', 'A-SOLVER', 'A-ENGINE'],
@@ -17,6 +21,7 @@ MANIFEST_ENTRY = {
 
 def tasks(tier, seed):
     return [
+        *[func(q) for q in GETTER_TASKS],
         func("bt.core.StrategyBase.flatten"),
         *UPDATE_ALL,
         func("bt.core.SecurityBase.update"),
